@@ -499,6 +499,180 @@ def rule_pb_pair(ctx):
     return r
 
 
+def rule_pb_rebind(ctx):
+    r = RuleResult('R-pb-rebind', 'in pullback code a local name that refers to adjoint storage handed in through `out` is never re-bound to a '
+                                  'different array: after `xbar = <new array>` every later "accumulation" goes into the new array and never reaches '
+                                  'the caller (the typical slip is `xbar = xbar + t` / `xbar = t` for `xbar += t`)')
+    eff = ctx.effects
+    m = ctx.model
+    funcs = []
+    for fi in eff.funcs:
+        if fi.name.startswith('pb_') or fi.name.startswith('_pb_') or fi.name.endswith('_pullback'):
+            funcs.append(fi)
+    n = 0
+    for fi in funcs:
+        sm = eff.sums.get(fi)
+        if sm is None:
+            continue
+        outs = {('p', 'out')}
+        # names bound to out storage at least once
+        for sid, (st, name, oldp, newr) in sorted(sm.rebinds.items(), key=lambda kv: kv[1][0].lineno):
+            if not (oldp & outs):
+                continue
+            opname = fi.name[3:] if fi.name.startswith('pb_') else None
+            if opname in tp.VIEW_MIRRORING:
+                r.note('%s re-binds `%s`: harmless, %s is view-mirroring (%s)' % (fi.qualname, name, opname, tp.VIEW_MIRRORING[opname]))
+                continue
+            # a placeholder is replaced: `if out is None: out = (...)`, `if not isinstance(xbar, cls): xbar = cls(zeros)`
+            placeholder = False
+            for t_, br in _guards(fi, st):
+                if _none_fact(t_, br, name) == 'none':
+                    placeholder = True
+                tt = t_.operand if isinstance(t_, ast.UnaryOp) and isinstance(t_.op, ast.Not) else t_
+                neg = (isinstance(t_, ast.UnaryOp) and isinstance(t_.op, ast.Not)) == br      # True when the isinstance test is known False
+                if isinstance(tt, ast.Call) and isinstance(tt.func, ast.Name) and tt.func.id == 'isinstance' and tt.args and norm(tt.args[0]) == name and neg:
+                    placeholder = True
+            if placeholder:
+                r.ok(construct=_f(fi) + ':placeholder:' + name, sample='%s: `%s` replaces a placeholder (None / constant operand), not adjoint storage' % (fi.qualname, norm(st)[:50]))
+                continue
+            n += 1
+            r.bad(Finding('R-pb-rebind', _f(fi), '%s:%s' % (name, norm(st)[:60]),
+                          '%s re-binds `%s`, which referred to adjoint storage from `out`, to another array (`%s`): what is computed from here on '
+                          'never reaches the caller\'s adjoint' % (fi.qualname, name, norm(st)[:70]), fi.file, st.lineno))
+        r.ok(construct=_f(fi), sample='%s: no name holding `out` storage is re-bound' % fi.qualname)
+    r.floor = 100
+    return r
+
+
+_ALLOC = {'zeros', 'zeros_like', 'empty', 'empty_like', '__zeros__', '__zeros_like__', 'ones', 'eye', 'copy', 'shape'}
+
+
+def _trivial_value(v):
+    if isinstance(v, (ast.Constant, ast.Name, ast.Attribute, ast.Tuple, ast.Subscript)):
+        return True
+    if isinstance(v, ast.Call):
+        d = dotted_name(v.func) or (v.func.attr if isinstance(v.func, ast.Attribute) else '')
+        if d.split('.')[-1] in _ALLOC:
+            return True
+        if d in ('cls', 'UTPM', 'self.__class__') and len(v.args) == 1 and _trivial_value(v.args[0]):
+            return True
+    return False
+
+
+def rule_pb_dead(ctx):
+    r = RuleResult('R-pb-dead', 'in pullback code a value computed from an adjoint (`*bar`) is not overwritten before it has been read: '
+                                '`t = f(ybar); t = g(...)` / `t[...] = ...` discards an adjoint contribution (the typical slip is `=` for `+=`)')
+    eff = ctx.effects
+
+    def full_def(st):
+        if isinstance(st, ast.Assign) and len(st.targets) == 1:
+            t = st.targets[0]
+            if isinstance(t, ast.Name):
+                return t.id, st.value
+            if isinstance(t, ast.Subscript) and isinstance(t.value, ast.Name):
+                sl = t.slice
+                if (isinstance(sl, ast.Constant) and sl.value is Ellipsis) or (isinstance(sl, ast.Slice) and sl.lower is None and sl.upper is None and sl.step is None):
+                    return t.value.id, st.value
+        if isinstance(st, ast.Expr) and isinstance(st.value, ast.Call):
+            for k in st.value.keywords:
+                if k.arg == 'out':
+                    o = k.value
+                    # out=N | out=cls._transpose(N) (a view of all of N) | out=N[...]
+                    if isinstance(o, ast.Call) and (dotted_name(o.func) or '').split('.')[-1] in ('_transpose', 'transpose') and len(o.args) == 1:
+                        o = o.args[0]
+                    if isinstance(o, ast.Subscript) and isinstance(o.slice, ast.Constant) and o.slice.value is Ellipsis:
+                        o = o.value
+                    if isinstance(o, ast.Name):
+                        return o.id, st.value
+        if isinstance(st, ast.AugAssign):
+            # `N op= e` / `N[...] op= e`: reads N and redefines it
+            t = st.target
+            if isinstance(t, ast.Subscript) and isinstance(t.slice, ast.Constant) and t.slice.value is Ellipsis:
+                t = t.value
+            if isinstance(t, ast.Name):
+                return t.id, ast.BinOp(left=ast.Name(id=t.id, ctx=ast.Load()), op=st.op, right=st.value)
+        return None
+
+    def reads(node, name):
+        return any(isinstance(n, ast.Name) and n.id == name and isinstance(n.ctx, ast.Load) for n in ast.walk(node))
+
+    n_defs = [0]
+
+    def scan(fi, body, tainted, out):
+        last = {}
+        for st in body:
+            td = full_def(st)
+            for name, dst in list(last.items()):
+                if td and td[0] == name:
+                    # the defining call `f(.., out=name)` mentions name only as the output
+                    val = td[1]
+                    inputs = [a for a in ast.walk(val)] if not (isinstance(st, ast.Expr)) else \
+                        [n for a in list(val.args) + [k.value for k in val.keywords if k.arg != 'out'] for n in ast.walk(a)]
+                    if isinstance(st, ast.AugAssign):
+                        inputs = [ast.Name(id=name, ctx=ast.Load())]        # an augmented assignment reads its target
+                    if any(isinstance(n, ast.Name) and n.id == name for n in inputs):
+                        last.pop(name)
+                    else:
+                        out.append((dst, st, name))
+                        last.pop(name)
+                elif reads(st, name):
+                    last.pop(name)
+            if td and not _trivial_value(td[1]) and ({n.id for n in ast.walk(td[1]) if isinstance(n, ast.Name)} & tainted):
+                last[td[0]] = st
+                n_defs[0] += 1
+            for attr in ('body', 'orelse', 'finalbody'):
+                sub = getattr(st, attr, None)
+                if isinstance(sub, list) and sub and isinstance(sub[0], ast.stmt) and not isinstance(st, (ast.FunctionDef, ast.ClassDef)):
+                    scan(fi, sub, tainted, out)
+
+    n_f = 0
+    for fi in eff.funcs:
+        if not (fi.name.startswith('pb_') or fi.name.startswith('_pb_') or fi.name.endswith('_pullback')):
+            continue
+        n_f += 1
+        tainted = {p_ for p_ in fi.params if p_.endswith('bar') or p_.endswith('bar_data')}
+        for _ in range(4):
+            for st in walk_no_nested(fi.node):
+                if isinstance(st, (ast.Assign, ast.AugAssign)):
+                    names = {n.id for n in ast.walk(st.value) if isinstance(n, ast.Name)}
+                    if names & tainted:
+                        for t in (st.targets if isinstance(st, ast.Assign) else [st.target]):
+                            b = t
+                            while isinstance(b, (ast.Subscript, ast.Attribute)):
+                                b = b.value
+                            if isinstance(b, ast.Name):
+                                tainted.add(b.id)
+                            elif isinstance(b, (ast.Tuple, ast.List)):
+                                tainted |= {e.id for e in b.elts if isinstance(e, ast.Name)}
+                if isinstance(st, ast.Expr) and isinstance(st.value, ast.Call):
+                    names = {n.id for a in st.value.args for n in ast.walk(a) if isinstance(n, ast.Name)}
+                    if names & tainted:
+                        for k in st.value.keywords:
+                            if k.arg == 'out':
+                                tainted |= {n.id for n in ast.walk(k.value) if isinstance(n, ast.Name)}
+        found = []
+        scan(fi, fi.node.body, tainted, found)
+        # an incoming adjoint that is re-bound before it has ever been read is discarded as well
+        first_use = {}
+        for n_ in sorted((x for x in walk_no_nested(fi.node) if isinstance(x, ast.Name)), key=lambda x: (x.lineno, x.col_offset)):
+            if n_.id in fi.params and (n_.id.endswith('bar') or n_.id.endswith('bar_data')) and n_.id not in first_use:
+                first_use[n_.id] = n_
+        for pn, n_ in first_use.items():
+            if isinstance(n_.ctx, ast.Store):
+                st_ = next((s_ for s_ in walk_no_nested(fi.node) if isinstance(s_, ast.Assign) and any(t_ is n_ for t_ in s_.targets)), None)
+                if st_ is not None and not reads(st_.value, pn):
+                    found.append((fi.node.args, st_, pn))
+        for dst, st, name in found:
+            what = ('the incoming adjoint `%s`' % name) if isinstance(dst, ast.arguments) else ('`%s` (computed from an adjoint)' % norm(dst)[:70])
+            r.bad(Finding('R-pb-dead', _f(fi), '%s:%s' % (name, 'param' if isinstance(dst, ast.arguments) else norm(dst)[:50]),
+                          '%s: %s is overwritten by `%s` before it is read: the contribution is lost'
+                          % (fi.qualname, what, norm(st)[:60]), fi.file, st.lineno))
+        r.ok(construct=_f(fi), sample='%s: every adjoint-derived value is read before its name/array is redefined' % fi.qualname)
+    r.stats = {'pullback_functions': n_f, 'adjoint_derived_definitions': n_defs[0]}
+    r.floor = 100
+    return r
+
+
 def rule_pb_setitem_clear(ctx):
     r = RuleResult('R-pb-setitem-clear', 'the pullback of an in-place write y[sl] = x clears the adjoint of the overwritten entries '
                                          '(ybar[sl] = 0) on every returning path - whatever the kind of x: the old contents of y[sl] no '
@@ -536,12 +710,32 @@ def rule_pb_setitem_clear(ctx):
                 return True
         return False
 
+    # the adjoint of the written value: last element of out
+    xbar = None
+    for st in walk_no_nested(fi.node):
+        if isinstance(st, ast.Assign) and isinstance(st.value, ast.Name) and st.value.id == 'out' and isinstance(st.targets[0], (ast.Tuple, ast.List)) \
+                and len(st.targets[0].elts) == 3 and isinstance(st.targets[0].elts[2], ast.Name):
+            xbar = st.targets[0].elts[2].id
+
+    def accumulates(st):
+        # xbar += ybar[sl]
+        return isinstance(st, ast.AugAssign) and isinstance(st.op, ast.Add) and isinstance(st.target, ast.Name) and st.target.id == xbar \
+            and any(isinstance(n, ast.Subscript) and isinstance(n.value, ast.Name) and n.value.id == ybar and norm(n.slice) == sl for n in ast.walk(st.value))
+
     n_paths = 0
     for path in _paths(fi.node.body):
         stmts = [s_ for s_ in path if not isinstance(s_, tuple)]
         if stmts and isinstance(stmts[-1], ast.Raise):
             continue
         n_paths += 1
+        if xbar is not None:
+            guarded_const = any(isinstance(t, tuple) and 'isinstance(%s' % xbar in norm(t[1]) for t in path)
+            if any(accumulates(s_) for s_ in stmts):
+                r.ok(construct='path%d:acc' % n_paths, sample='pb___setitem__ path %d accumulates `%s += %s[%s]`' % (n_paths, xbar, ybar, sl))
+            elif not guarded_const:
+                r.bad(Finding('R-pb-setitem-clear', _f(fi), 'acc-path%d' % n_paths,
+                              'pb___setitem__ does not accumulate the adjoint of the overwritten region into the adjoint of the written value '
+                              '(`%s += %s[%s]`) on a returning path' % (xbar, ybar, sl), fi.file, fi.lineno))
         if any(clears(s_) for s_ in stmts):
             r.ok(construct='path%d' % n_paths, nontrivial=True, sample='pb___setitem__ path %d clears `%s[%s]`' % (n_paths, ybar, sl))
         else:
